@@ -457,9 +457,7 @@ def real_summary(rep):
 
 
 def _fnum(x):
-    if isinstance(x, str):
-        raise EvalError("non-finite real output " + x)
-    return Fraction(x)
+    return x if isinstance(x, str) else Fraction(x)
 
 
 def real_env(ctx, reps):
@@ -521,6 +519,10 @@ def compare_run(r, rep, m):
                 continue
             a = ev(t)
             if isinstance(b, str):
+                inf_c, nan_c = symnp.nonfinite_conditions(t)
+                want = nan_c if b == 'nan' else inf_c
+                if bool(symx.model_value(m, want)) is True:
+                    continue        # the stand-in knows this cell is non-finite of the same kind
                 return "value cell %d real=%s (non-finite)" % (i, b)
             if isinstance(a, str):
                 return "value cell %d sym=%s" % (i, a)
